@@ -857,6 +857,12 @@ pub fn witnesses() -> Vec<String> {
     "id: h8b\nlanguage: js\nrule: {kind: identifier, nthChild: \"n-2147483647\"}\n".into(),
     "id: h8c\nlanguage: js\nrule: {kind: identifier, nthChild: 4294967297}\n".into(),
     "id: h4\nlanguage: js\nrule: {pattern: foo($$$A)}\ntransform: {X: {substring: {source: $$$A}}}\nfix: {template: \"bar($X)\"}\n".into(),
+    // utility cycles whose members carry a `matches` to a harmless leaf NEXT TO the operator that closes
+    // the cycle (`any`, `all`, `not`, `nthChild.ofRule`): every key of a rule object is a dependency
+    "id: cycdec1\nlanguage: js\nutils:\n  leaf: {kind: identifier}\n  A: {matches: leaf, any: [{kind: number}, {matches: B}]}\n  B: {kind: identifier, not: {matches: A}}\nrule: {kind: identifier, matches: A}\n".into(),
+    "id: cycdec2\nlanguage: js\nutils:\n  leaf: {kind: identifier}\n  A: {matches: leaf, all: [{matches: B}]}\n  B: {matches: leaf, nthChild: {position: 1, ofRule: {matches: A}}}\nrule: {kind: identifier, matches: B}\n".into(),
+    "id: cycdec3\nlanguage: python\nutils:\n  leaf: {kind: identifier}\n  A: {matches: leaf, not: {matches: A}}\nrule: {kind: identifier, matches: A}\n".into(),
+    "id: cycdec4\nlanguage: js\nutils:\n  leaf: {kind: identifier}\n  A: {kind: identifier, matches: leaf, regex: a, any: [{all: [{not: {matches: C}}]}]}\n  B: {matches: A}\n  C: {any: [{matches: B}, {kind: number}]}\nrule: {kind: identifier, matches: C}\n".into(),
     "id: h9\nlanguage: js\nutils:\n  A: {inside: {matches: B, stopBy: end}}\n  B: {has: {matches: A, stopBy: end}}\nrule: {kind: identifier, matches: A}\n".into(),
     "id: dup\nlanguage: js\nrule: {pattern: foo($$$A)}\nrewriters:\n- {id: r, rule: {kind: identifier}, fix: x}\n- {id: r, rule: {kind: number}, fix: y}\n".into(),
     "id: of\nlanguage: js\nutils:\n  U: {nthChild: {position: 1, ofRule: {matches: U}}}\nrule: {matches: U}\n".into(),
